@@ -1,8 +1,14 @@
-import Orca.Lemmas.Lower
+import Orca.Lemmas.BlockAlt
 /-!
 # C21 — block alternate replaces exactly the selected construct
 
 Model: `Orca.Lower` (M3), `resolveSpecial` with its `delete_block` / `retain_end` tracking.
+
+`c21_block_alt_region` / `c21_else_alt_region` are the property for **every** body: a function whose only instrumentation is one
+block alternate is encoded as the code in front of the selected construct, the replacement, the code behind the construct's
+matching `end` (for `else`: the keyword and its arm are replaced, the `end` stays) — whatever the nesting in front of, inside and
+behind the construct, for an empty replacement too, and without adding a local. Bodies with further instrumentation (other modes
+outside the removed region, special lists inside it, nested alternates) are compared per case against the model.
 -/
 namespace Orca.Lower
 
@@ -57,5 +63,63 @@ example :
     go [.setMode 1 .blockAlt, .inject 1 "R"] = some ["c", "R", "z", "end"]
     ∧ go [.setMode 3 .blockAlt, .inject 3 "R"] = some ["c", "if", "t", "R", "end", "z", "end"]
     ∧ go [.emptyBlockAlt 3] = some ["c", "if", "t", "end", "z", "end"] := by decide
+
+/-- **C21 for every body** (block / loop / if): `pre` is the code in front (any nesting, need not be balanced), `region` the
+    inside of the construct (any balanced sequence), `endI` its `end`, `post` the rest of the function. -/
+theorem c21_block_alt_region (f : Func) (pre region post : List Instr) (sel endI : Instr) (repl : List Tok)
+    (hbody : f.body = pre ++ sel :: region ++ endI :: post) (hpne : post ≠ [])
+    (hsp : f.hasSpecial = true) (hentry : f.entry = []) (hexit : f.exit = [])
+    (hpre : ∀ x ∈ pre, Clean x) (hreg : ∀ x ∈ region, Clean x) (hend : Clean endI) (hpost : ∀ x ∈ post, Clean x)
+    (hsel : SelOnly sel repl) (hk : sel.kind = .block ∨ sel.kind = .loop ∨ sel.kind = .if_) (hendk : endI.kind = .end_)
+    (n n2 : Nat) (hd1 : depthAfter pre 1 = some n) (hd2 : depthAfter region 0 = some 0) (hd3 : depthAfter post n = some n2) :
+    lower f = (toks pre ++ repl ++ toks post, f.added) :=
+  blockAlt_region f pre region post sel endI repl hbody hpne hsp hentry hexit hpre hreg hend hpost hsel hk hendk n n2 hd1 hd2 hd3
+
+/-- **C21 for every body** (else): the keyword and the arm are replaced, the `end` of the `if` stays -/
+theorem c21_else_alt_region (f : Func) (pre region post : List Instr) (sel endI : Instr) (repl : List Tok)
+    (hbody : f.body = pre ++ sel :: region ++ endI :: post) (hpne : post ≠ [])
+    (hsp : f.hasSpecial = true) (hentry : f.entry = []) (hexit : f.exit = [])
+    (hpre : ∀ x ∈ pre, Clean x) (hreg : ∀ x ∈ region, Clean x) (hend : Clean endI) (hpost : ∀ x ∈ post, Clean x)
+    (hsel : SelOnly sel repl) (hk : sel.kind = .else_) (hendk : endI.kind = .end_)
+    (n n2 : Nat) (hd1 : depthAfter pre 1 = some (n + 1)) (hd2 : depthAfter region 0 = some 0) (hd3 : depthAfter post n = some n2) :
+    lower f = (toks pre ++ repl ++ [endI.tok] ++ toks post, f.added) :=
+  blockAlt_region_else f pre region post sel endI repl hbody hpne hsp hentry hexit hpre hreg hend hpost hsel hk hendk n n2 hd1 hd2 hd3
+
+/-- the API produces such functions: selecting block-alt on a clean block-structured instruction and injecting a
+    replacement gives `SelOnly`, marks the function, and leaves every other instruction as it was -/
+theorem c21_api_gives_selOnly (f f2 : Func) (idx : Nat) (x : Instr) (t : Tok) (hx : f.body[idx]? = some x) (hc : Clean x)
+    (hb : x.kind.isBlockStyle = true) (hf : f.fmode = none)
+    (h : applyAll f [.setMode idx .blockAlt, .inject idx t] = some f2) :
+    ∃ y, f2.body[idx]? = some y ∧ SelOnly y [t] ∧ y.kind = x.kind ∧ y.tok = x.tok ∧ f2.hasSpecial = true
+      ∧ f2.entry = f.entry ∧ f2.exit = f.exit ∧ (∀ j, j ≠ idx → f2.body[j]? = f.body[j]?) := by
+  have h1 := modifyAt_get f.body idx (fun i => { i with mode := some .blockAlt }) x hx
+  have hlt : idx < (modifyAt f.body idx (fun i => { i with mode := some .blockAlt })).length := by
+    rw [h1.2.2]
+    rcases Nat.lt_or_ge idx f.body.length with h' | h'
+    · exact h'
+    · simp [List.getElem?_eq_none h'] at hx
+  have hadd : ({ x with mode := some .blockAlt } : Instr).addInstr t
+      = some ({ x with mode := some .blockAlt, blockAlt := some [t] }, true) := by
+    simp [Instr.addInstr, hb, hc.blockAlt]
+  simp only [applyAll, apply, hx, Option.bind_some, h1.1, hadd, Option.some.injEq] at h
+  subst h
+  refine ⟨{ x with mode := some .blockAlt, blockAlt := some [t] }, by simp [hlt],
+    ⟨hc.before, hc.after, hc.alt, hc.semAfter, hc.blockEntry, hc.blockExit, rfl⟩, rfl, rfl, by simp, rfl, rfl, ?_⟩
+  intro j hj
+  simp only
+  rw [List.getElem?_set_ne (Ne.symm hj)]
+  exact h1.2.1 j hj
+
+/-! non-vacuity of the hypotheses of the region theorems on a nested body -/
+set_option maxRecDepth 8000 in
+example :
+    let a : Instr := mk "a" .other
+    let pre := [a, mk "block" .block]
+    let sel : Instr := { mk "loop" .loop with blockAlt := some ["R"] }
+    let region := [mk "b" .other, mk "if" .if_, mk "c" .other, mk "else" .else_, mk "d" .other, mk "end" .end_]
+    let post := [mk "e" .other, mk "end" .end_, mk "end" .end_]
+    depthAfter pre 1 = some 2 ∧ depthAfter region 0 = some 0 ∧ depthAfter post 2 = some 0
+      ∧ (lower { body := pre ++ sel :: region ++ mk "end" .end_ :: post, hasSpecial := true }).1
+          = ["a", "block", "R", "e", "end", "end"] := by decide
 
 end Orca.Lower
